@@ -2952,3 +2952,186 @@ func fixupAttributesPerCommit(c *Ctx, rule string) {
 	}
 	c.AtLeast(rule, "tree callbacks building the attribute tree", n, 1)
 }
+
+// incomingPayloadWhole (C14): incomingOrCached looks at the first kilobyte of a request's payload to see whether
+// there is one. What it returns is the whole payload: the prefix alone only if the read reported the end of the
+// input (its error compared equal to io.EOF) or nothing was read; otherwise prefix + rest, and the read's error is
+// handed on only where it is not io.EOF (the caller takes any error as "skip the smudge, answer with nothing").
+func incomingPayloadWhole(c *Ctx, rule string) {
+	p := c.P
+	fn := p.Fn("commands", "incomingOrCached")
+	if fn == nil || len(fn.Params) == 0 {
+		c.Missing(rule, "commands.incomingOrCached", "not found")
+		return
+	}
+	var read *ssa.Call
+	for _, ci := range CallsIn(fn, "(io.Reader).Read", "io.ReadFull", "io.ReadAtLeast") {
+		read, _ = ci.(*ssa.Call)
+	}
+	if read == nil {
+		c.Missing(rule, "read of the payload prefix in incomingOrCached", "not found")
+		return
+	}
+	isEOF := func(v ssa.Value) bool {
+		u, ok := v.(*ssa.UnOp)
+		if !ok {
+			return false
+		}
+		g, ok := u.X.(*ssa.Global)
+		return ok && (g.Name() == "EOF" || g.Name() == "ErrUnexpectedEOF") && g.Pkg != nil && g.Pkg.Pkg.Path() == "io"
+	}
+	eofCmp := func(cond ssa.Value) (isCmp bool, eqWhenTrue bool) {
+		op, x, y, ok := BinCmp(cond)
+		if !ok || (op != token.EQL && op != token.NEQ) {
+			return false, false
+		}
+		if isEOF(x) {
+			x, y = y, x
+		}
+		if !isEOF(y) || !ResultOfCall(x, read, 1) {
+			return false, false
+		}
+		return true, op == token.EQL
+	}
+	atEOF := PassEdges(fn, func(cond ssa.Value) (bool, bool) {
+		if ok, eq := eofCmp(cond); ok {
+			return eq, true
+		}
+		// nothing was read
+		if op, x, y, ok := BinCmp(cond); ok && ResultOfCall(x, read, 0) {
+			if k, isK := ConstInt(y); isK && k == 0 {
+				switch op {
+				case token.EQL, token.LEQ:
+					return true, true
+				case token.NEQ, token.GTR:
+					return false, true
+				}
+			}
+		}
+		return false, false
+	})
+	notEOF := PassEdges(fn, func(cond ssa.Value) (bool, bool) {
+		if ok, eq := eofCmp(cond); ok {
+			return !eq, true
+		}
+		return false, false
+	})
+	src := fn.Params[0]
+	n := 0
+	for _, r := range ReturnsOf(fn) {
+		if len(r.Results) < 2 {
+			continue
+		}
+		n++
+		rd := Unwrap(r.Results[0])
+		whole := false
+		if cc, ok := rd.(*ssa.Call); ok && CalleeName(cc.Common()) == "io.MultiReader" {
+			els := variadicOrdered(cc.Call.Args[0])
+			whole = len(els) >= 2 && els[len(els)-1] != nil && SameVar(els[len(els)-1], src)
+		}
+		if !whole {
+			g, where := Guarded(fn.Blocks[0], r, atEOF, nil)
+			c.Check(g && nonVacuous(atEOF), rule, "incomingOrCached:prefix-only-at-end-of-input#"+itoa(n), p.InstrPos(r), "the prefix alone is returned only when the input ended (or was empty)",
+				"incomingOrCached can return only the first bytes of a payload although the input did not report its end ("+where+"): content delivered in several reads is cut, or a full buffer is taken for the whole payload")
+		}
+		if ResultOfCall(r.Results[1], read, 1) {
+			g, where := Guarded(fn.Blocks[0], r, notEOF, nil)
+			c.Check(g && nonVacuous(notEOF), rule, "incomingOrCached:eof-is-not-an-error#"+itoa(n), p.InstrPos(r), "the read's error is handed on only where it is not io.EOF",
+				"incomingOrCached can hand io.EOF to its caller as an error ("+where+"): a payload that exactly fills the buffer makes the filter answer with empty content and status success")
+		}
+	}
+	c.AtLeast(rule, "returns of incomingOrCached", n, 3)
+}
+
+// locksOfAllRefsKnownBeforeUpload (C16): an object reachable from several pushed refs is uploaded while the
+// first of them is scanned and skipped (as already uploaded) when the others are. Whether its path is locked by
+// someone else on one of the *other* refs must therefore be known before anything is uploaded: the locks of every
+// ref update are fetched (lockVerifier.Verify) before the loop that scans and uploads, not inside it.
+func locksOfAllRefsKnownBeforeUpload(c *Ctx, rule string) {
+	p := c.P
+	fn := p.Fn("commands", "uploadForRefUpdates")
+	if fn == nil {
+		c.Missing(rule, "commands.uploadForRefUpdates", "not found")
+		return
+	}
+	loops := Loops(fn)
+	var upl *Loop
+	for _, ci := range CallsIn(fn, "(*commands.uploadContext).NewQueue") {
+		upl = LoopOf(loops, ci.Block())
+	}
+	if upl == nil {
+		c.Missing(rule, "upload loop of uploadForRefUpdates", "not found")
+		return
+	}
+	inLoop, before := false, false
+	for _, ci := range CallsIn(fn, "(*commands.lockVerifier).Verify", "commands.verifyLocksForUpdates") {
+		if upl.Region[ci.Block()] || ci.Block() == upl.Header {
+			inLoop = true
+			continue
+		}
+		// a call (or a loop of calls) all of whose paths come before the upload loop
+		if ci.Block().Dominates(upl.Header) {
+			before = true
+		} else if l := LoopOf(loops, ci.Block()); l != nil && l.Header.Dominates(upl.Header) && !l.Region[upl.Header] {
+			// every update is visited: the loop ranges over the same slice as the upload loop
+			if a, b := l.RangedOperand(), upl.RangedOperand(); a != nil && b != nil && SameVar(a, b) {
+				before = true
+			}
+		}
+	}
+	c.Check(before && !inLoop, rule, "locks-of-all-refs-before-first-upload", p.Pos(fn.Pos()), "locks of all ref updates are fetched before the scanning and uploading loop",
+		"the locks of a pushed ref are fetched only when that ref's turn comes (or not for every ref) instead of for all refs up front: an object shared with an earlier ref is already uploaded and skipped, so a lock another user holds on a later ref never blocks the push")
+}
+
+// rawErrorsWhereClassified (C16): fixSingleFileWriteFlags ignores "file does not exist" from
+// tools.SetFileWriteFlag by asking os.IsNotExist, which does not look through git-lfs's own error wrappers. The
+// two must agree: wherever the result of a function is classified with os.IsNotExist, every error that function
+// gets from os.Stat/os.Lstat/os.Chmod is returned as it is. Otherwise one tracked-but-missing lockable file
+// aborts the pass over all files and the rest keep stale write bits.
+func rawErrorsWhereClassified(c *Ctx, rule string) {
+	p := c.P
+	// producers: functions whose error result reaches os.IsNotExist in package locking
+	producers := map[*ssa.Function]bool{}
+	for _, fn := range p.RepoFuncs(func(path string) bool { return strings.HasSuffix(path, "/locking") }) {
+		for _, ci := range CallsIn(fn, "os.IsNotExist") {
+			for _, l := range append(p.LeavesNoFields(ci.Common().Args[0], nil), ci.Common().Args[0]) {
+				if cc, _, ok := CallResult(l); ok {
+					if callee := cc.Call.StaticCallee(); callee != nil && callee.Pkg != nil && productPkg(callee.Pkg.Pkg.Path()) {
+						producers[callee] = true
+					}
+				}
+			}
+		}
+	}
+	n := 0
+	var fns []*ssa.Function
+	for fn := range producers {
+		fns = append(fns, fn)
+	}
+	sort.Slice(fns, func(i, j int) bool { return FnName(fns[i]) < FnName(fns[j]) })
+	for _, fn := range fns {
+		for _, r := range ReturnsOf(fn) {
+			if len(r.Results) == 0 {
+				continue
+			}
+			for _, v := range ReturnValues(r, -1) {
+				if IsNilConst(v) || !isErrorType(v.Type()) {
+					continue
+				}
+				// an error derived from an os call but not that call's result itself
+				if cc, _, ok := CallResult(v); ok && strings.HasPrefix(CalleeName(cc.Common()), "os.") {
+					n++
+					c.OK(rule, "raw-os-error:"+FnName(fn)+"#"+itoa(n), p.InstrPos(r), "the os error is returned as it is")
+					continue
+				}
+				for _, l := range p.LeavesNoFields(v, nil) {
+					if cc, _, ok := CallResult(l); ok && strings.HasPrefix(CalleeName(cc.Common()), "os.") && isErrorType(l.Type()) {
+						n++
+						c.Bad(rule, "raw-os-error:"+FnName(fn)+"#"+itoa(n), p.InstrPos(r), FnName(fn)+" wraps the error of "+CalleeName(cc.Common())+" although a caller classifies its result with os.IsNotExist: a missing file is no longer recognised as such, the pass over the lockable files stops at the first one, and the remaining files keep the wrong write bits")
+					}
+				}
+			}
+		}
+	}
+	c.AtLeast(rule, "os errors returned by functions whose result is classified with os.IsNotExist", n, 1)
+}
